@@ -723,11 +723,18 @@ func (vc *VC) havocForLoop(body ast.Node, extra []ast.Node, st *State, hint stri
 	}
 	if len(mi.calls) > 0 {
 		// allocation counter / trace may advance
+		// the ghost trace is append-only: materialise it, and keep the prefix below the old length
+		oldLen := vc.heap(st, "$TraceLen", SInt)
+		vc.heap(st, "$Trace", SArr)
+		vc.heap(st, "$TraceArgs", SMem)
 		for _, name := range []string{"$nextArr", "$TraceLen", "$Trace", "$TraceArgs"} {
 			if h, ok := st.heaps[name]; ok {
 				nh := vc.fresh(name, h.Sort)
 				if name == "$nextArr" || name == "$TraceLen" {
 					vc.assume(Le(h, nh))
+				} else {
+					k := vc.fresh("tk", SInt)
+					vc.assume(Forall([]*Term{k}, Implies(Lt(k, oldLen), Eq(Select(nh, k), Select(h, k)))))
 				}
 				st.heaps[name] = nh
 			} else if name == "$nextArr" {
